@@ -2,7 +2,7 @@
 From Coq Require Import List Bool Arith Ascii String NArith.
 From UV.Base Require Import Order Res.
 From UV.Py Require Import PyStr.
-From UV.Schemes Require Import Common Generic LegacyOpenssl Gentoo GentooProofs Debian DebianProofs.
+From UV.Schemes Require Import Common Generic LegacyOpenssl Gentoo GentooProofs Debian DebianProofs Semver.
 Import ListNotations.
 
 Record vsch := {
@@ -41,8 +41,16 @@ Definition sch_deb : vsch :=
      v_ops := deb_ops; v_hasheq := deb_hasheq;
      v_cmp := deb_cmp; v_shape := dok |}.
 
+Definition sch_semver : vsch :=
+  {| vT := semver; v_valid := fun n => Ok (semver_valid n); v_ctor := semver_ctor; v_str := semver_str;
+     v_ops := fun a b => Ok (semver_ops a b); v_hasheq := semver_hasheq; v_cmp := semver_cmp; v_shape := sv_ok |}.
+Definition sch_golang : vsch :=
+  {| vT := semver; v_valid := fun n => Ok (golang_valid n); v_ctor := golang_ctor; v_str := semver_str;
+     v_ops := fun a b => Ok (semver_ops a b); v_hasheq := semver_hasheq; v_cmp := semver_cmp; v_shape := sv_ok |}.
+
 Definition schemes : list (string * vsch) :=
   [("GenericVersion", sch_generic); ("Version", sch_generic); ("LegacyOpensslVersion", sch_legacy);
+   ("SemverVersion", sch_semver); ("NginxVersion", sch_semver); ("GolangVersion", sch_golang); ("ComposerVersion", sch_golang);
    ("GentooVersion", sch_gentoo); ("DebianVersion", sch_deb); ("AlpineLinuxVersion", sch_alpine)]%string.
 
 Definition find_scheme (name : string) : option vsch :=
